@@ -43,7 +43,12 @@ def guard_transcriptions(index, M, report=None, rid=None, depth=3,
     deviation stops the check as a stale model."""
     T = Tables(index)
     from .walkerdiff import walker_rule
-    if report is not None:
+    if report is not None and rid is None:
+        # a stale model stops the check, but only after the rules that
+        # evaluate the source itself have had their say
+        report.deferred.append(
+            lambda: walker_rule(report, index, None, depth, strict))
+    elif report is not None:
         walker_rule(report, index, rid, depth, strict)
     return T
 
@@ -54,7 +59,11 @@ def guard_tokens(report, index, M, rid=None):
     reported as failures of that rule (C01, C02); without, a deviation
     stops the check as a stale printer model"""
     from .tokens import token_rule
-    return token_rule(report, index, M, rid, violation=rid is not None)
+    if rid is None:
+        report.deferred.append(
+            lambda: token_rule(report, index, M, None, violation=False))
+        return None
+    return token_rule(report, index, M, rid, violation=True)
 
 
 def level_effect(T, handler):
@@ -93,7 +102,11 @@ def run(report, index, tier):
     D, A, am = M.definitions, M.actions, M.astmodel
     T = guard_transcriptions(index, M, report)
     guard_tokens(report, index, M)
+    from . import c14
+    c14.rules(report, index)
     table = T.table('indent', indent_str='  ')['layout_handlers']
+    from .runs import uniformity_rule
+    uniformity_rule(report, M, T, 'R20.5', [('indent table', table)])
     K = lambda n: Sym(RULETYPES_MOD, n)   # noqa: E731
     report.explanation = (
         'The definitions table and the indent rule table are analysed as '
@@ -352,16 +365,19 @@ def run(report, index, tier):
         hn = tab[K('Newline')]
         hon = tab[K('OptionalNewline')]
         for level in (0, 1, 2, 3, 7, 8, 15, 16, 17, 31, 32, 33, 64, 100):
-            hn.obj._level = level
-            got = T.emit(hn, 'Block', 'a', 'b', None)
-            want = ['\n'] + ([indent_str * level] if indent_str * level
-                             else [])
-            r4.check(got == want, 'newline level=%d indent=%r' % (
-                level, indent_str), 'layout_handler_newline(level=%d, '
-                'indent_str=%r)' % (level, indent_str),
-                'emits %r, expected %r' % (got, want),
-                where='handlers/indentation.py:Indentator.'
-                'layout_handler_newline')
+            for before in ('a', '// c ', '/* c */\t', '}'):
+                hn.obj._level = level
+                got = T.emit(hn, 'Block', before, 'b', None)
+                want = ['\n'] + ([indent_str * level] if indent_str * level
+                                 else [])
+                r4.check(got == want, 'newline level=%d indent=%r%s' % (
+                    level, indent_str, '' if before == 'a' else
+                    ' before=%r' % before),
+                    'layout_handler_newline(level=%d, indent_str=%r, '
+                    'before=%r)' % (level, indent_str, before),
+                    'emits %r, expected %r' % (got, want),
+                    where='handlers/indentation.py:Indentator.'
+                    'layout_handler_newline')
             for before, prev, need_nl in (
                     ('}', None, True), ('}', '\n', False),
                     (';', '  ', True), (None, None, True),
